@@ -766,4 +766,84 @@ def replay(payload):
         else:
             ok = (rc, calls) == (0, [False])
         return {"confirmed": not ok, "observed": [rc, calls], "expected": "per TRXC POWERON/POWEROFF semantics"}
+    if what in ("find_trx", "add_trx"):
+        # TRXList over real FakeTRX objects: lists of 0..4 members (two of them sharing address and port, differing in child index)
+        from contracts.py.native import native_trx
+        tl = toolkit("trx_list")
+        pool = [native_trx("A", 5700), native_trx("B", 5800), native_trx("A1", 5700, child_idx=1), native_trx("C", 5900), native_trx("A2", 5700, child_idx=2)]
+        dupA = native_trx("A'", 5700)
+        bad = []
+        for n in range(len(pool) + 1):
+            members = pool[:n]
+            if what == "find_trx":
+                for (ad, po, ci) in [("127.0.0.1", 5700, 0), ("127.0.0.1", 5700, 1), ("127.0.0.1", 5700, 2), ("127.0.0.1", 5700, 3), ("127.0.0.1", 5800, 0),
+                                     ("127.0.0.1", 5800, 1), ("127.0.0.2", 5700, 0), ("127.0.0.1", 6000, 0)]:
+                    lst = tl.TRXList(list(members))
+                    want = next((t for t in members if (t.remote_addr, t.base_port, t.child_idx) == (ad, po, ci)), None)
+                    try:
+                        got = lst.find_trx(ad, po, ci) if ci else lst.find_trx(ad, po)
+                    except Exception as e:
+                        got = "raises %s: %s" % (type(e).__name__, e)
+                    if got is not want or lst.trx_list != members:
+                        bad.append({"members": [t.name for t in members], "query": [ad, po, ci], "observed": getattr(got, "name", got), "expected": getattr(want, "name", None)})
+            else:
+                for new in pool + [dupA]:
+                    lst = tl.TRXList(list(members))
+                    dup = any(t is new or (t.remote_addr, t.base_port, t.child_idx) == (new.remote_addr, new.base_port, new.child_idx) for t in members)
+                    try:
+                        lst.add_trx(new)
+                        got = "added"
+                    except IndexError:
+                        got = "IndexError"
+                    except Exception as e:
+                        got = "raises %s: %s" % (type(e).__name__, e)
+                    want_list = members if dup else members + [new]
+                    if got != ("IndexError" if dup else "added") or len(lst.trx_list) != len(want_list) or any(a is not b for a, b in zip(lst.trx_list, want_list)):
+                        bad.append({"members": [t.name for t in members], "new": new.name, "observed": [got, [t.name for t in lst.trx_list]],
+                                    "expected": ["IndexError" if dup else "added", [t.name for t in want_list]]})
+        return {"confirmed": bool(bad), "observed": bad[:4] or "as specified", "expected": "first match or None / IndexError iff duplicate, else appended at the end"}
+    if what in ("wiring", "wiring.unbounded"):
+        from contracts.py.native import patch_sockets
+        patch_sockets()
+        ft = toolkit("fake_trx")
+        tl = toolkit("trx_list")
+        bad = []
+        for nexist in range(4):
+            for mode in ("parent", "child_of_first", "child_of_last", "child_of_missing", "duplicate_parent", "duplicate_child"):
+                if nexist == 0 and mode not in ("parent", "child_of_missing"):
+                    continue
+                app = ft.Application.__new__(ft.Application)
+                app.argv = type("Argv", (), {"trx_bind_addr": "0.0.0.0"})()
+                app.clck_gen, app.fake_pm, app.trx_list = object(), object(), tl.TRXList()
+                for k in range(nexist):
+                    app.append_trx("127.0.0.1", 5700 + 100 * k, name="E%d" % k)
+                before = list(app.trx_list.trx_list)
+                if mode == "duplicate_child":
+                    app.append_child_trx("127.0.0.1", 5700, name="C0", child_idx=1)
+                    before = list(app.trx_list.trx_list)
+                port = {"parent": 9000, "child_of_first": 5700, "child_of_last": 5700 + 100 * (nexist - 1), "child_of_missing": 9900,
+                        "duplicate_parent": 5700, "duplicate_child": 5700}[mode]
+                idx = 0 if mode in ("parent", "duplicate_parent") else 1
+                try:
+                    app.append_child_trx("127.0.0.1", port, name="N", child_idx=idx)
+                    got = "added"
+                except IndexError:
+                    got = "IndexError"
+                except Exception as e:
+                    got = "raises %s: %s" % (type(e).__name__, e)
+                after = list(app.trx_list.trx_list)
+                refuse = mode in ("child_of_missing", "duplicate_parent", "duplicate_child")
+                ok = got == ("IndexError" if refuse else "added") and after[:len(before)] == before and len(after) == len(before) + (0 if refuse else 1)
+                if ok and not refuse:
+                    new = after[-1]
+                    if mode == "parent":
+                        ok = new.clck_gen is app.clck_gen and new.child_idx == 0 and new.pwr_meas is app.fake_pm and new.child_trx_list.trx_list == []
+                    else:
+                        parent = before[0] if mode == "child_of_first" else before[nexist - 1]
+                        ok = (new.clck_gen is None and new.child_idx == 1 and new.pwr_meas is app.fake_pm and parent.child_trx_list.trx_list == [new]
+                              and all(t.child_trx_list.trx_list == [] for t in before if t is not parent))
+                if not ok:
+                    bad.append({"existing": nexist, "mode": mode, "observed": [got, [(t.name, t.base_port, t.child_idx) for t in after]]})
+        return {"confirmed": bool(bad), "observed": bad[:4] or "as specified",
+                "expected": "parents share the clock generator, children hang off their parent without a clock, IndexError for a missing parent or a duplicate"}
     return {"confirmed": False, "error": "no native replay for %r" % what}
